@@ -1182,4 +1182,27 @@ theorem ua_create_throw_orig_witness :
       | .error .dtorRaw => true
       | _ => false) = true := uCreateXOrig_witness
 
+/-- `unbounded_array(n)` with the throw at any construction / a failing allocation: no fault; either the object
+    exists and holds `n` value-initialised elements, or there is NO object and every element the call had
+    constructed is destroyed again (nothing leaks) -/
+theorem ua_ctor_throw (n b : Nat) (al : Bool) :
+    ∃ x tr, uCtorX n b al = .ok (x, tr, !(al && decide (n ≤ b))) ∧
+      (if al = true ∧ n ≤ b then ∃ a, x = some a ∧ UAbs a (List.replicate n 0) ∧ nC tr = nD tr + n
+       else x = none ∧ nC tr = nD tr) := by
+  obtain ⟨a, tr, h1, h2, h3, _⟩ := uCreateX_spec n b al
+  by_cases hc : al = true ∧ n ≤ b
+  · have ht : (!(al && decide (n ≤ b))) = false := by simp [hc.1, hc.2]
+    rw [ht] at h1
+    rw [if_pos hc] at h2 h3
+    refine ⟨some a, tr, by simp [uCtorX, h1, ht, bind, Except.bind, pure, Except.pure], ?_⟩
+    rw [if_pos hc]
+    exact ⟨a, rfl, h2, h3⟩
+  · have ht : (!(al && decide (n ≤ b))) = true := by
+      cases al <;> simp_all
+    rw [ht] at h1
+    rw [if_neg hc] at h3
+    refine ⟨none, tr, by simp [uCtorX, h1, ht, bind, Except.bind, pure, Except.pure], ?_⟩
+    rw [if_neg hc]
+    exact ⟨rfl, by omega⟩
+
 end Igris.C14
